@@ -1,8 +1,11 @@
 #!/bin/bash
-# tools/mutant.sh <prop> <file> <sed-expr>  : apply a one-line edit to /repo, run the quick check, revert.
-P=$1; F=$2; E=$3
-if [ -n "$(git -C /repo status --porcelain)" ]; then echo "refusing: /repo has uncommitted changes"; exit 4; fi
-cd /repo && sed -i "$E" "$F" && git diff --stat | head -3
-if git diff --quiet; then echo "MUTANT DID NOT APPLY"; exit 3; fi
-cd /verif && ./bin/govc check -prop $P -no-evidence 2>&1 | grep -E "^FAILED|^govc:|KNOWN|^VIOLATION" | cut -c1-220 | tail -6
-cd /repo && git checkout -- "$F"
+# tools/mutant.sh <prop> <file> <sed-expr> [-only substr] : apply a one-line edit to a scratch copy of /repo's working
+# tree (outside /repo and /verif, removed afterwards) and run the quick check of <prop> there. /repo is not touched.
+P=$1; F=$2; E=$3; shift 3
+SCR=$(mktemp -d /var/tmp/verif_mutant_${P}_XXXXXX)
+trap 'rm -rf "$SCR" /verif/replays/$P' EXIT
+rsync -a --exclude .git /repo/ "$SCR/"
+sed -i "$E" "$SCR/$F"
+if cmp -s "/repo/$F" "$SCR/$F"; then echo "MUTANT DID NOT APPLY"; exit 3; fi
+diff "/repo/$F" "$SCR/$F" | head -4
+cd /verif && VERIF_DROP_SMT=1 ./bin/govc check -prop $P -repo "$SCR" -verif /verif -no-evidence "$@" 2>&1 | grep -E "^FAILED|^govc:|^VIOLATION|panic" | grep -v KNOWN | cut -c1-220 | tail -6
